@@ -114,6 +114,9 @@ def acct_script(rng, cfg, scope, tag):
     seq_script = [(p, rng.randint(0, 1), [])]
     if rng.random() < 0.3:
         seq_script.append((copy.deepcopy(p), 0, []))   # a second record on the same session id (seq 3)
+    if args and rng.random() < 0.12:
+        # the body cut short inside its argument octets (the header announces what is really there): cannot be decoded
+        p["cut"] = rng.randint(1, max(1, sum(len(a) for a in args)))
     return seq_script
 
 
@@ -240,6 +243,25 @@ def many_args_scenarios(rng, tag, n):
         p = author(u["name"], [list(a) for a in args][:255])
         steps = session_steps(1, 0, [(p, 0, [])]) + session_steps(1, 1, [(author(u["name"], [list(b"service=shell"), list(b"cmd=show")]), 0, [])])
         out.append({"id": "manyargs-%d" % len(out), "cfg": cfg, "conns": [{"c": 1, "addr": "10.1.0.5"}], "steps": steps, "iso": False, "log": False})
+    return out
+
+
+def reuse_ref_scenarios(rng, tag, n):
+    """an ASCII login left at a prompt while other sessions of the connection complete and their ids are used again"""
+    out = []
+    for i in range(n):
+        cfg = base_cfg(rng, tag)
+        pa, pb = pw_of(cfg, "s1", "alice"), pw_of(cfg, "s1", "bob")
+        a = session_steps(1, 0, ascii_login("alice", pa, user_in_start=rng.random() < 0.5))
+        k = rng.randint(1, len(a) - 1)                       # packets of the login sent before the others
+        once = lambda: rng.choice([pap_login("bob", pb), pap_login("bob", "bad-" + tag),
+                                   [(acct("alice", 2, [list(b"task_id=7")]), 0, [])],
+                                   [(author("alice", [list(b"service=shell"), list(b"cmd=show")]), 0, [])]])
+        mid = []
+        for _ in range(rng.randint(2, 3)):
+            mid += session_steps(1, 1, once())               # completes; the same id again next time
+        steps = a[:k] + mid + a[k:] + session_steps(1, 0, once())
+        out.append({"id": "reuse-%d" % i, "cfg": cfg, "conns": [{"c": 1, "addr": "10.1.0.5"}], "steps": steps, "iso": False, "log": False})
     return out
 
 
@@ -592,6 +614,11 @@ def collect(ctx, prop):
     if prop == "C09":
         scen += exhaustive_c09(rng, tag, 300 if quick else 6000)
         scen += overlap_c09(rng, tag, 150 if quick else 3000)
+    if prop in ("C07", "C09", "C10", "C06"):
+        scen += reuse_ref_scenarios(rng, tag, 40 if quick else 600)
+        if prop == "C09":
+            for s in scen[-(40 if quick else 600):]:
+                s["iso"] = True
     if prop in ("C07", "C11"):
         scen += many_args_scenarios(rng, tag, 40 if quick else 600)
     if prop == "C12":
